@@ -55,6 +55,7 @@ ALLOW = {
     "grin_p2p::msg::read_body|vec::from_elem": (1, "msg_len of a header accepted by MsgHeaderWrapper::read (<= 4 x per-type maximum)"),
     "grin_p2p::msg::read_discard|vec::from_elem": (1, "msg_len of a header accepted by MsgHeaderWrapper::read (<= 4 x default maximum)"),
     "grin_p2p::codec::Codec::read_inner|BytesMut::reserve": (1, "to_read <= next_len, which is bounded in every codec state (C19 next-len rules)"),
+    "grin_p2p::codec::Codec::read_inner|BytesMut::resize": (1, "the same fill step spelled as resize(pre_len + to_read, 0): the new length is next_len, bounded in every codec state (C19 next-len and fill-size rules)"),
     "grin_p2p::codec::Codec::read_inner|BytesMut::split_to": (3, "buffer.len() >= next_len after the fill step above"),
     "grin_p2p::codec::Codec::read_inner|Buf::advance": (1, "buffer.len() >= next_len after the fill step above"),
     "grin_p2p::codec::Codec::read_inner|IndexMut::index_mut": (1, "pre_len is the buffer length before it was extended"),
